@@ -281,6 +281,13 @@ def state_deps(chk, program, rule='STATE-DEPS'):
     config = {n.attr for n in ast.walk(init) if isinstance(n, ast.Attribute) and isinstance(n.ctx, ast.Store) and isinstance(n.value, ast.Name) and n.value.id == 'self'}
     bookkeeping = {'logged_unsupported_pgns', 'dump_TextIOWrapper'}
     m = program.mod('decoder')
+    # class-level constants (NAME = <expr> in the class body, never assigned through self anywhere) are configuration as well
+    cdef = program.cls('decoder', 'NMEA2000Decoder')
+    class_level = {t.id for n in cdef.body if isinstance(n, (ast.Assign, ast.AnnAssign)) for t in (n.targets if isinstance(n, ast.Assign) else [n.target]) if isinstance(t, ast.Name)}
+    stored_via_self = {n.attr for q_, f_ in m.defs.items() if q_.startswith('NMEA2000Decoder.') for n in ast.walk(f_)
+                       if isinstance(n, ast.Attribute) and isinstance(n.ctx, (ast.Store, ast.Del)) and isinstance(n.value, ast.Name) and n.value.id == 'self'}
+    config |= (class_level - stored_via_self)
+    methods_ = {q_.split('.', 1)[1] for q_ in m.defs if q_.startswith('NMEA2000Decoder.')}
     # (1) configuration is never mutated after construction
     for q, fn in m.defs.items():
         if not q.startswith('NMEA2000Decoder.') or q == 'NMEA2000Decoder.__init__':
@@ -307,14 +314,20 @@ def state_deps(chk, program, rule='STATE-DEPS'):
         except AnalysisError:
             raise
         used = {}
+        # what a guard decides: whether None is returned instead of the message, and what is stored.  (A guard that only chooses between two
+        # returns of the same message -- e.g. an early `return msg` when no dump file is open -- decides nothing about the result.)
+        ret_vals = {e[2] for e in ex.events if e[0] == 'return' and e[2] != sym.NONE}
         for e in ex.events:
+            if e[0] == 'return' and e[2] != sym.NONE and len(ret_vals) == 1:
+                continue
             if e[0] in ('return', 'store', 'del'):
                 for gterm in e[1]:
                     for s_ in sym.walk(gterm):
                         if s_[0] == 'attr' and s_[1] == ('param', 'self'):
                             used.setdefault(s_[2], e[-1])
         for a, ln in sorted(used.items()):
-            ok = (a in config and a not in bookkeeping) or a in HISTORY or a in ('_isFastPGN', '_log_unsupported_pgn_once', '_decode_fast_message', '_call_decode_function')
+            ok = (a in config and a not in bookkeeping) or a in HISTORY or a in ('_isFastPGN', '_log_unsupported_pgn_once', '_decode_fast_message', '_call_decode_function') or \
+                (a in methods_ and a not in bookkeeping)          # a method called in a guard: what it reads is followed when it is walked in place
             chk.check(ok, rule, f"{qual}::depends-on::self.{a}", file=m.rel(), line=ln, func=qual,
                       expected='what is returned depends only on the configuration, the source map and the reassembly buffers', found=f"a guard reads self.{a}",
                       detail='' if ok else 'state kept for logging / bookkeeping now decides whether a message is returned: an ignored or rejected input changes later results')
